@@ -2352,3 +2352,124 @@ def slot_pairing(prog, table, depth=3, ndesc=3):
         except Stuck as s_:
             raise AnalysisBroken('%s: slot code cannot be evaluated on the model: %s' % (table, s_))
     return bad
+
+
+# ---------------------------------------------------------------------------------------
+# R-C03h: a failed try-registration leaves no trace in the back end.  Relational forward analysis on the inlined entry
+# point (one poll method expanded): a set of (trace field is clean, {integer local: 'Z' | 'NZ'}) states, so that what the
+# back end was left with stays correlated with the value that is finally returned, however the result travels (return
+# temporaries of helpers, copies, merged returns).  No statement order or shape is looked at.
+# ---------------------------------------------------------------------------------------
+
+def _int_var(x):
+    x = strip(x)
+    return x['name'] if isinstance(x, dict) and x.get('k') == 'var' and not x.get('ptr') and 'record' not in x else None
+
+
+def failure_traces(g, objs, keys, clean, unknown_call=None):
+    """[(ret event, 'Z'|'NZ'|'?', clean?)] over the root's own return events, one entry per abstract state that reaches it.
+    clean?: the field `keys` of the object (names `objs`) holds the constant `clean` (stored, or implied by a branch taken, and
+    no store that may alias it wrote anything else since).  The second component abstracts the returned value.  The states also
+    carry whether the object is queued for a deferred kernel update (list_notify), only to discard paths that contradict it
+    (unlinked, then found linked), as kernel_synced does."""
+    from ..core import forward
+    from ..analyses import exits_of, list_empty_test
+    lkey = (FD, 'list_notify')
+    samples = [v for v in (-2, -1, 0, 1, 2, 1000, 2 ** 31 - 1) if v != clean]
+
+    def leaf_for(b, val):
+        def leaf(x):
+            if x.get('k') == 'member' and (x.get('record'), x.get('field')) in keys and canon(_obj_base(x)) == b:
+                return val
+            return None
+        return leaf
+
+    def aval(x, env):
+        c = const_value(x)
+        if c is not None:
+            return 'Z' if c == 0 else 'NZ'
+        n = _int_var(x)
+        if n is not None:
+            return dict(env).get(n, '?')
+        return '?'
+
+    def setvar(env, name, v):
+        d = dict(env)
+        d.pop(name, None)
+        if v in ('Z', 'NZ'):
+            d[name] = v
+        return frozenset(d.items())
+
+    def tr(e, S):
+        out = set()
+        for (cl, env, lk) in S:
+            if e['ev'] == 'store':
+                l = strip(e['lhs'])
+                if isinstance(l, dict) and l.get('k') == 'var':
+                    v = aval(e['rhs'], env) if e.get('op') == '=' and 'rhs' in e else '?'
+                    out.add((cl, setvar(env, l['name'], v), lk))
+                    continue
+                if any(k in keys for k in lvalue_steps(e['lhs'])):
+                    v = const_value(e['rhs']) if e.get('op') == '=' and 'rhs' in e else None
+                    if _root_name(e['lhs']) in objs:
+                        cl = (v == clean)
+                    elif v != clean:
+                        cl = False
+            elif e['ev'] == 'decl':
+                env = setvar(env, e.get('name'), '?')
+            elif is_link(e, lkey):
+                lk = 'L'
+            elif is_unlink(e, lkey) or (is_call(e, ('INIT_IV_LIST_HEAD',)) and list_member_arg(e)[0] == lkey):
+                lk = 'N'
+            elif e['ev'] == 'call' and unknown_call is not None and unknown_call(e):
+                cl = False
+            out.add((cl, env, lk))
+        return frozenset(out)
+
+    def edge(blk, si, S):
+        atoms = _edge_atoms(blk, si)
+        if not atoms:
+            return S
+        for at in norm_cond(blk.term['cond'], si == 0):
+            lt = list_empty_test(at, member_key=lkey)
+            if lt == 'empty':
+                S = frozenset((cl, env, 'N') for (cl, env, lk) in S if lk != 'L')
+            elif lt == 'nonempty':
+                S = frozenset((cl, env, 'L') for (cl, env, lk) in S if lk != 'N')
+        # what the branch says about the trace field
+        implied = False
+        bases = set()
+        for (op, l, r) in atoms:
+            for x in walk([l, r]):
+                if x.get('k') == 'member' and (x.get('record'), x.get('field')) in keys and _root_name(x) in objs:
+                    bases.add(canon(_obj_base(x)))
+        for b in bases:
+            if all(refuted(atoms, leaf_for(b, v)) for v in samples) and not refuted(atoms, leaf_for(b, clean)):
+                implied = True
+        out = set()
+        for (cl, env, lk) in S:
+            feasible = True
+            for (op, l, r) in atoms:
+                for (a, b_, o) in ((l, r, op), (r, l, {'<': '>', '>': '<', '<=': '>=', '>=': '<='}.get(op, op))):
+                    n, c = _int_var(a), const_value(b_)
+                    if n is None or c is None or o not in _CMP:
+                        continue
+                    zero_ok = _CMP[o](0, c)
+                    nz_ok = not (o == '==' and c == 0)
+                    cur = dict(env).get(n, '?')
+                    if (cur == 'Z' and not zero_ok) or (cur == 'NZ' and not nz_ok):
+                        feasible = False
+                    elif not zero_ok:
+                        env = setvar(env, n, 'NZ')
+                    elif not nz_ok:
+                        env = setvar(env, n, 'Z')
+            if feasible:
+                out.add((cl or implied, env, lk))
+        return frozenset(out) if out else None
+
+    _, ev_in = forward(g, frozenset({(False, frozenset(), 'U')}), tr, lambda a, b: a | b, edge=edge)
+    res = []
+    for (pb, pi, e) in exits_of(g):
+        for (cl, env, lk) in ev_in.get((pb, pi), ()):
+            res.append((e, aval(e['value'], env) if e.get('value') is not None else '?', cl))
+    return res
